@@ -321,6 +321,9 @@ func (f *Fam) Gen(r *rand.Rand, i int) string {
 			}
 			return fmt.Sprintf("mon.keybytes %s %s", []string{"ed25519", "secp256k1"}[r.Intn(2)], hex.EncodeToString(raw))
 		}
+		if r.Intn(15) == 0 {
+			return fmt.Sprintf("mon.sigsplit %s %d", []string{"ed25519", "secp256k1"}[r.Intn(2)], r.Int63())
+		}
 		if r.Intn(6) == 0 { // the ante handler's signature-depth count on a multisignature key, limits around its size
 			for pk.Leaf() {
 				pk = genPK(r, 3)
@@ -442,6 +445,51 @@ func (f *Fam) Exec(op string) (obs string, fails []common.Failure) {
 			fail("multisig-iff", "C19:multisig-verify", fmt.Sprintf("%s: VerifyBytes=%v, every key signed in its own position=%v", op, ok, want))
 		}
 		return strconv.FormatBool(ok), fails
+	case "mon.sigsplit": // C19: a signature binds its message - also after the genuine pair has been verified before
+		seed, _ := strconv.ParseInt(w[2], 10, 64)
+		rr := rand.New(rand.NewSource(seed))
+		secret := make([]byte, 32)
+		rr.Read(secret)
+		var priv crypto.PrivateKey
+		if w[1] == "ed25519" {
+			priv = crypto.Ed25519PrivateKey{}.PrivKeyToPrivateKey(ed25519.GenPrivKeyFromSecret(secret))
+		} else {
+			priv = crypto.Secp256k1PrivateKey{}.PrivKeyToPrivateKey(secp256k1.GenPrivKeySecp256k1(secret))
+		}
+		pub := priv.PublicKey()
+		msg := make([]byte, 8+rr.Intn(40))
+		rr.Read(msg)
+		sig, err := priv.Sign(msg)
+		if err != nil || !pub.VerifyBytes(msg, sig) {
+			fail("sign-verifies", "C19:genuine-signature-refused", fmt.Sprintf("%s: a genuine %s signature does not verify (%v)", op, w[1], err))
+			return "done", fails
+		}
+		pub.VerifyBytes(msg, sig) // once more: whatever the first verification left behind must not matter
+		k := 1 + rr.Intn(len(msg)-1)
+		variants := map[string][2][]byte{
+			"the message cut short, its tail moved in front of the signature": {msg[:len(msg)-k], append(append([]byte{}, msg[len(msg)-k:]...), sig...)},
+			"the message extended by the head of the signature":               {append(append([]byte{}, msg...), sig[:k%len(sig)+1]...), sig[k%len(sig)+1:]},
+			"a byte appended to the signature":                                {msg, append(append([]byte{}, sig...), 0)},
+			"the last byte of the message changed":                            {append(append([]byte{}, msg[:len(msg)-1]...), msg[len(msg)-1]^1), sig},
+		}
+		for what, v := range variants {
+			if pub.VerifyBytes(v[0], v[1]) {
+				fail("binds-message", "C19:verifies-other-message", fmt.Sprintf("%s: after the genuine pair had been verified, %s verifies too", op, what))
+			}
+		}
+		// and another key does not accept the genuine pair
+		other := make([]byte, 32)
+		rr.Read(other)
+		var pub2 crypto.PublicKey
+		if w[1] == "ed25519" {
+			pub2 = crypto.Ed25519PrivateKey{}.PrivKeyToPrivateKey(ed25519.GenPrivKeyFromSecret(other)).PublicKey()
+		} else {
+			pub2 = crypto.Secp256k1PrivateKey{}.PrivKeyToPrivateKey(secp256k1.GenPrivKeySecp256k1(other)).PublicKey()
+		}
+		if pub2.VerifyBytes(msg, sig) {
+			fail("binds-key", "C19:verifies-under-other-key", fmt.Sprintf("%s: another %s key accepts the pair once it has been verified under its own key", op, w[1]))
+		}
+		return "done", fails
 	case "mon.keybytes": // C19, implementation side: raw bytes -> private key -> raw bytes, for both key types
 		seed, _ := hex.DecodeString(w[2])
 		var priv crypto.PrivateKey
